@@ -51,8 +51,8 @@ def line(ops, base=None, plan=None, table=()):
         parts.append("15 " + hexs(plan))
     if base is not None:
         parts.append("14 " + hexs(base))
-    for m, c, p in table:
-        parts.append("13 %d %s %s" % (m, hexs(c), hexs(p)))
+    for m, l, c, p in table:
+        parts.append("13 %d %d %d %s %s" % (m, 1 if l >= 0 else 2, abs(l), hexs(c), hexs(p)))
     parts += [enc_op(o) for o in ops]
     return " ".join(parts)
 
@@ -96,57 +96,98 @@ def contents_of(ops):
         out.append(cur)
     return out
 
+def scan_locals(data):
+    """lenient front-to-back scan of local headers (for sinks that never got a central directory)"""
+    import struct, zlib, bz2
+    out, p = [], 0
+    while data[p:p + 4] == b"PK\x03\x04" and p + 30 <= len(data):
+        vneed, flags, method, t, d, crc, cs, us, nl, el = struct.unpack("<HHHHHIIIHH", data[p + 4:p + 30])
+        extra = data[p + 30 + nl:p + 30 + nl + el]
+        if cs == 0xffffffff and extra[:4] == b"\x01\x00\x10\x00":
+            us, cs = struct.unpack("<QQ", extra[4:20])
+        st = p + 30 + nl + el
+        payload = data[st:st + cs]
+        content = None
+        try:
+            content = payload if method == 0 else zlib.decompress(payload, -15) if method == 8 else bz2.decompress(payload) if method == 12 else None
+        except Exception:
+            content = None
+        out.append(dict(method=method, flags=flags, crc=crc, usize=us, payload=payload, content=content))
+        p = st + cs
+    return out
+
+def eff_level(method, level):
+    if level is not None:
+        return level
+    return {8: 6, 12: 6, 93: 3}.get(method, 0)
+
 def with_tables(exe, progs):
-    """progs: list of dict(ops=..., base=..., plan=...).  Returns the request lines carrying the compressor oracle."""
+    """progs: list of dict(ops=..., base=..., plan=...).  Returns (request lines carrying the compressor oracle,
+    pass-1 outputs).  The oracle values come from the codec libraries called directly by the harness with the
+    parameters the crate passes them (method, effective level, whole content)."""
     first = [line(p["ops"], p.get("base"), p.get("plan")) for p in progs]
     outs = run_lines(exe, first)
-    lines = []
+    want = {}
+    per_prog = []
     for p, o in zip(progs, outs):
-        table = []
-        if any(op[0] in ("file", "extra", "aligned") and op[2].method != 0 for op in p["ops"]):
-            calls, data = final_bytes(o)
-            if data:
-                listing, _ = strictzip.validate(data)
-                ents = listing["entries"] if isinstance(listing, dict) else []
-                seen = set()
-                # every (method, candidate content) pair: the content of an entry is the concatenation of a prefix of the
-                # successful writes; offer all prefixes so that failed writes do not matter
-                pws = [op[2].pw for op in p["ops"] if op[0] in ("file", "extra", "aligned") and op[2].pw is not None]
-                for e in ents:
-                    if e["method"] in (8, 12, 93) and (e["flags"] & 1) and pws:
-                        import genzip
-                        for pw in pws:
-                            plain = genzip.ZipCrypto(pw).decrypt(e["payload"])
-                            if len(plain) >= 12 and plain[11] == (e["crc"] >> 24) & 0xff:
-                                for m, c in all_prefix_contents(p["ops"]):
-                                    if m == e["method"] and (m, c) not in seen and e["usize"] == len(c) and e["crc"] == (__import__('binascii').crc32(c) & 0xffffffff):
-                                        seen.add((m, c))
-                                        table.append((m, c, plain[12:]))
-                    if e["method"] in (8, 12, 93) and not (e["flags"] & 1):
-                        for m, c in all_prefix_contents(p["ops"]):
-                            if m == e["method"] and (m, c) not in seen and (e["content"] == c or (e["content"] is None and e["usize"] == len(c) and e["crc"] == (__import__('binascii').crc32(c) & 0xffffffff))):
-                                seen.add((m, c))
-                                table.append((m, c, e["payload"]))
+        calls, _ = final_bytes(o)
+        cands = []
+        for m, lvl, c in all_prefix_contents(p["ops"], calls):
+            if m in (8, 12, 93) and level_valid(m, lvl):
+                key = (m, eff_level(m, lvl), c)
+                cands.append(key)
+                want.setdefault(key, None)
+        per_prog.append(cands)
+    keys = list(want)
+    reqs = ["compress %d %d %d %s" % (m, 1 if l >= 0 else 2, abs(l), hexs(c)) for m, l, c in keys]
+    res = run_lines(exe, reqs) if reqs else []
+    for k, r in zip(keys, res):
+        want[k] = bytes.fromhex(r[1:]) if r and r.startswith("x") else b""
+    lines = []
+    for p, cands in zip(progs, per_prog):
+        table, seen = [], set()
+        for m, l, c in cands:
+            if (m, l, c) not in seen:
+                seen.add((m, l, c))
+                table.append((m, l, c, want[(m, l, c)]))
         lines.append(line(p["ops"], p.get("base"), p.get("plan"), table))
     return lines, outs
 
-def all_prefix_contents(ops):
+def level_valid(m, lvl):
+    if lvl is None:
+        return True
+    return (m == 8 and 0 <= lvl <= 9) or (m == 12 and 1 <= lvl <= 9) or (m == 93 and -7 <= lvl <= 22)
+
+def all_prefix_contents(ops, calls=None):
+    """(method, content) candidates for every entry: the successful content writes since it was started.
+    Mode toggles (extra data) only count when the call succeeded (known from pass 1)."""
     out = []
     cur = None
     to_extra = False
-    for op in ops:
+    for i, op in enumerate(ops):
+        ok = True
+        if calls is not None and i < len(calls):
+            c = calls[i]
+            ok = isinstance(c, list) and len(c) > 0 and c[0] == "Ok"
         k = op[0]
         if k in ("file", "extra", "aligned"):
-            cur = [op[2].method, b""]
-            to_extra = k != "file"
-            out.append((cur[0], b""))
+            if ok or k != "file":
+                cur = [op[2].method, op[2].level, b""]
+                to_extra = (k == "extra") and ok
+                out.append((cur[0], cur[1], b""))
+            if k == "file" and not ok:
+                # the entry may exist although the call failed after writing its header
+                out.append((op[2].method, op[2].level, b""))
         elif k in ("dir", "symlink", "rawcopy", "finish"):
-            cur = None
+            if ok:
+                cur = None
         elif k == "endextra":
-            to_extra = False
+            if ok:
+                to_extra = False
         elif k == "endlocal":
-            to_extra = True
-        elif k == "write" and cur is not None and not to_extra:
-            cur[1] += op[1]
-            out.append((cur[0], cur[1]))
+            if ok:
+                to_extra = True
+        elif k == "write" and cur is not None and not to_extra and ok:
+            cur[2] += op[1]
+            out.append((cur[0], cur[1], cur[2]))
     return out
